@@ -1,6 +1,7 @@
 import Poulpy.Driver.Util
 import Poulpy.Driver.Ser
 import Poulpy.Model.Layout
+import Poulpy.Model.Kernels
 /-
 Driver of the layout state machine.  Command word `layout`.
   id layout hist ctor=alloc:n,cols,size | frombytes:n,cols,size,len  steps=ss:K;rl:K;vw;rd:<hex>;…
@@ -35,6 +36,15 @@ def go (l : Lay) : List Step → List String
     | .ok l' => showLay l' :: go l' rest
     | .err k => ["err:" ++ k]
     | .panic c => ["panic:" ++ c]
+
+/-- sorted index list → `a-b,c-d` half-open ranges -/
+def showRanges (l : List Nat) : String :=
+  let step := fun (acc : List (Nat × Nat)) (i : Nat) =>
+    match acc with
+    | (a, b) :: rest => if i == b then (a, b + 1) :: rest else (i, i + 1) :: (a, b) :: rest
+    | [] => [(i, i + 1)]
+  let rs := (l.foldl step []).reverse
+  if rs.isEmpty then "-" else ",".intercalate (rs.map (fun (a, b) => s!"{a}-{b}"))
 
 def handle (ts : List String) : String :=
   match ts with
@@ -91,6 +101,35 @@ def handle (ts : List String) : String :=
       let l := intoBig (allocPrep n c sz (wPrep be)) be
       let okc := !(traceClobbers (compactTrace n (c * sz)))
       s!"same={if okc then 1 else 0} {l.w},{l.len},{maxEnd l}"
+    | _ => "bad-op"
+  | "kern" :: rest =>
+    -- id layout kern op=cnvconst|cnvapply|vmpapply p=…  → W=<written element ranges of the result> inb=<0|1> chk=<ok|panic>
+    let p := kvNats rest "p"
+    let g := fun (k : Nat) => p.getD k 0
+    let n := g 0
+    let fmt := fun (foot : List Kern.Acc) (len : Nat → Nat) (chk : String) =>
+      let idx := (Kern.writeIdx 0 foot).filter (fun i => i < len 0)
+      let sorted := (List.range (len 0)).filter (fun i => idx.contains i)
+      s!"W={showRanges sorted} inb={if decide (Kern.InBounds len foot) then 1 else 0} chk={chk}"
+    match (kv rest "op").getD "" with
+    | "cnvconst" =>
+      let (rc, rs, rcol, ac, asz, acol, bs, off) := (g 1, g 2, g 3, g 4, g 5, g 6, g 7, g 8)
+      let len : Nat → Nat := fun b => match b with | 0 => n * rc * rs | 1 => n * ac * asz | 2 => bs | _ => 8 * (min rs (asz + bs - 1) + asz)
+      let chk := match Kern.cnvByConstChecked n rs rc rcol asz ac acol bs off with | .ok _ => "ok" | _ => "panic"
+      fmt (Kern.cnvByConst n rs rc rcol asz ac acol bs off) len chk
+    | "cnvapply" =>
+      let (rc, rs, rcol, ac, asz, acol, bc, bsz, bcol, off) := (g 1, g 2, g 3, g 4, g 5, g 6, g 7, g 8, g 9, g 10)
+      let m := n / 2
+      let len : Nat → Nat := fun b => match b with | 0 => n * rc * rs | 1 => n * ac * asz | 2 => n * bc * bsz | _ => 8 * min rs (asz + bsz - 1)
+      let chk := match Kern.cnvApplyChecked m rs rc rcol asz ac acol bsz bc bcol off with | .ok _ => "ok" | _ => "panic"
+      fmt (Kern.cnvApply m rs rc rcol asz acol bsz bcol off) len chk
+    | "vmpapply" =>
+      let (rows, ci, co, sz, asz, rsz, lo) := (g 1, g 2, g 3, g 4, g 5, g 6, g 7)
+      let m := n / 2
+      let nrows := ci * rows
+      let ncols := co * sz
+      let len : Nat → Nat := fun b => match b with | 0 => n * (co * rsz) | 1 => n * (ci * asz) | 2 => n * nrows * ncols | _ => 16 + 8 * (min asz rows * ci)
+      fmt (Kern.vmpApply m (co * rsz) (ci * asz) nrows ncols (lo * co)) len "ok"
     | _ => "bad-op"
   | _ => "bad-op"
 
